@@ -453,8 +453,12 @@ impl cob::store::Cob for Thread {
     ) -> Result<(), Error> {
         let identity = op.identity.ok_or(Error::MissingIdentity)?;
         let concurrent = concurrent.into_iter().collect::<Vec<_>>();
+        // Apply the operation to a copy of the state, so that an operation
+        // that fails has no effect.
+        let mut thread = self.clone();
+
         for action in op.actions {
-            self.action(
+            thread.action(
                 action,
                 op.id,
                 op.author,
@@ -464,6 +468,8 @@ impl cob::store::Cob for Thread {
                 repo,
             )?;
         }
+        *self = thread;
+
         Ok(())
     }
 }
